@@ -192,6 +192,8 @@ func c07P3(r *core.R) {
 		})
 		r.Stat("goroutine_loops", nloops)
 	}
+	c07DropIsFinal(r, m)
+	c07ClosedIsFinal(r, m)
 }
 
 // cyclesLeaveOnDone decides, on every path and through helper calls, whether each cycle of loop passes a select that
@@ -251,8 +253,13 @@ func (m *pbfModel) cyclesLeaveOnDone(s *pbfSite, loop *ast.ForStmt) (why, incomp
 		}
 		return st, true
 	}
-	// the analysis assumes the context is cancelled: tests of ctx.Err() are decided, everything else goes both ways
+	// inside the loop the analysis assumes the context is cancelled: tests of ctx.Err() are decided, everything else goes
+	// both ways. Outside the loop nothing is assumed: the cancellation can arrive after an enclosing loop tested the
+	// context and entered its body, so an inner loop is reachable and has to stop on its own.
 	t.Edge = func(st int, cond ast.Expr, val bool, _ *FuncInfo) (int, bool) {
+		if st == outside {
+			return st, true
+		}
 		v := evalTri(cond, m.cancelledAtom)
 		return st, v == triU || (v == triT) == val
 	}
